@@ -646,7 +646,9 @@ def b2(repo: Repo) -> RuleResult:
         from .normal import show as _shj
         from .pyflow import single_atom as _saj
 
-        flj = _cfj(repo, "Parser", "parser.py", inline=lambda n_, f_: n_.startswith("_"), module_funcs=True)
+        # helpers that build the child (whatever they are called) are seen through; parse / parse_string and the
+        # grammar actions are not
+        flj = _cfj(repo, "Parser", "parser.py", inline=lambda n_, f_: n_ not in ("parse", "parse_string", "parse_child") and not n_.startswith(("p_", "t_")), module_funcs=True)
         pcj = flj.methods.get("parse_child")
         if pcj is None:
             res.unsure("B2: Parser.parse_child vanished")
